@@ -22,6 +22,9 @@ STR_POOLS = {
     "words": lambda n: ["ant", "bee", "cat", "dog", "eel", "fox", "gnu", "hen", "ibis", "jay"][:n],
     "mixeddigit": lambda n: (["07", "a1", "x", "10", "b", "2", "zz", "q9", "k", "5"])[:n],  # has non-digit names
     "digitstr": lambda n: [str(i + 1) for i in range(n)],    # digit-only strings -> library turns them to int
+    "long": lambda n: ["ENSG00000139618_BRCA2_homo_sapiens_chr13", "a_rather_long_element_name_of_more_than_forty_characters",
+                       "q" * 64, "gene_family_member_number_three_isoform_b", "w" * 33, "Saccharomyces_cerevisiae_S288C_YAL001C",
+                       "zeta_" * 9, "long-name.with.dots-and-dashes.of.fifty.characters", "k" * 40, "m_" * 20][:n],
 }
 
 
@@ -130,13 +133,18 @@ def gen_sparse_dataset(rng: random.Random, n_max: int = 6, m_max: int = 5) -> di
     return {"rankings": rankings, "as_elements": rng.random() < 0.3, "ctor": "Dataset", "pool": pool_name + "/sparse"}
 
 
-def gen_cyclic_blocks_dataset(rng: random.Random, sizes=None) -> dict:
+def gen_cyclic_blocks_dataset(rng: random.Random, sizes=None, prefer_colliding: bool = False) -> dict:
     """Several blocks, each ranked as rotations of a cycle (a component that cannot be all tied), blocks always in
     the same order: ParCons gets several non-trivial components of different sizes (e.g. 4 then 3)."""
     sizes = sizes or rng.choice([[4, 3], [3, 4], [3, 3], [3], [4], [3, 2, 3]])
     n = sum(sizes)
     kind, pool_name, pool = pick_pool(rng, n)
-    if rng.random() < 0.25:
+    if prefer_colliding:
+        # names whose set iteration order depends on insertion order / hash seed, and tie-heavy rankings
+        pool_name = rng.choice(["collide8", "collide32", "multi", "words", "letters"])
+        pool = (INT_POOLS.get(pool_name) or STR_POOLS[pool_name])(n)
+        rng.shuffle(pool)
+    if not prefer_colliding and rng.random() < 0.25:
         # str names where one whole block is integer-like ("07", "10", "2") next to alphabetic names: the block's
         # projection is a dataset of ints
         digits = ["07", "10", "2", "33", "5", "012", "8"]
@@ -152,7 +160,8 @@ def gen_cyclic_blocks_dataset(rng: random.Random, sizes=None) -> dict:
         blocks.append(pool[at:at + sz])
         at += sz
     m = rng.choice([3, 3, 4, 5])
-    p_merge = rng.choice([0.15, 0.15, 0.5, 0.8])  # the high values: elements first appear inside tied buckets
+    p_merge = rng.choice([0.5, 0.8]) if prefer_colliding else rng.choice([0.15, 0.15, 0.5, 0.8])
+    # (the high values: elements first appear inside tied buckets)
     rankings = []
     for j in range(m):
         r = []
@@ -163,6 +172,12 @@ def gen_cyclic_blocks_dataset(rng: random.Random, sizes=None) -> dict:
                 i = rng.randrange(len(rot) - 1)
                 rot[i], rot[i + 1] = rot[i + 1], rot[i]
             part = [[e] for e in rot]
+            if prefer_colliding and j == 0 and rng.random() < 0.6:
+                # every element of the block makes its first appearance inside one tied bucket
+                whole = list(rot)
+                rng.shuffle(whole)
+                cut = rng.randint(2, len(whole))
+                part = [whole[:cut]] + [[e] for e in whole[cut:]]
             while rng.random() < p_merge and len(part) > 1:
                 i = rng.randrange(len(part) - 1)
                 merged = part[i] + part[i + 1]
